@@ -354,6 +354,17 @@ func stackRun(w *World) {
 			return
 		}
 	}
+	if t.Flag(1, 3) && len(topFields) > 0 {
+		// a second client that keeps reading with read masks while the first one works: nothing it does may change what
+		// the first client is entitled to see
+		nbg := 2 + t.Choose(5)
+		w.Go("bg-reader", true, func(task *Task) {
+			for i := 0; i < nbg; i++ {
+				task.Yield("bg-get")
+				_, _ = doGet([]string{topFields[p.n(len(topFields))]}, true)
+			}
+		})
+	}
 	w.Go("client", false, func(task *Task) {
 		task.NoPark(true)
 		cur, err := doGet(nil, false)
